@@ -7,7 +7,9 @@ empty; every binding added comes from the unique DB entry of a prefix of a read 
 `import <prefix spelled in the code>`; a name with >= 2 candidates, or unknown and unimportable, is
 not bound, no import is tried for it and the call reports failure."""
 from . import c06
-from .c06 import has_dotted_key, is_f07a, is_f21  # noqa: F401  (classifiers named in known_findings.d/C07.json)
+
+ANCHORS = c06.ANCHORS
+from .c06 import has_dotted_key, is_attrstore, is_f07a, is_f21  # noqa: F401  (classifiers named in known_findings.d/C07.json)
 
 
 def run(ctx):
